@@ -547,6 +547,23 @@ func driveC06(p *Pool, r *evid.Run) {
 	exploreAll(p, r, "C06", v2, 1, 0)
 	r.Add("scenarios", int64(len(v2)))
 
+	// one spawn site at a time arbitrarily slow (sender's walker, receive loop, workers; the reference peer's threads)
+	probe6 := exploreAll(p, r, "C06", []Scn{{Kind: "refrecv", Src: "v1", Cap: 64, Policy: "rr", Script: []int{0, 2, 3}, SelectAlts: true, Progress: true}}, 0, 0)
+	if len(probe6) > 0 && probe6[0] != nil {
+		var slow []Scn
+		for _, role := range probe6[0].Roles {
+			for _, scr := range [][]int{{0, 2, 3}, {3, 2, 0}, {2}, {}} {
+				for _, cp := range caps {
+					slow = append(slow, Scn{Kind: "refrecv", Src: "v1", Cap: cp, Policy: "slow:" + role, Script: scr, SelectAlts: true, Progress: true})
+				}
+			}
+			slow = append(slow, Scn{Kind: "refrecv", Src: "v2", Cap: 1, Policy: "slow:" + role, Script: []int{0, 1, 2, 3, 4}, SelectAlts: true, Progress: true})
+		}
+		exploreAll(p, r, "C06", slow, 1, 0)
+		r.Add("scenarios", int64(len(slow)))
+		r.Set("slow_roles", probe6[0].Roles)
+	}
+
 	// read faults: reading file K fails after J bytes, every file of V2 requested
 	var rf []Scn
 	for k, sz := range []int{0, 1, 32768, 32769, 65537} {
